@@ -11,7 +11,7 @@ from vf.gen.histproj import HistProject
 
 
 class History:
-	def __init__(self, r: random.Random, shape: str, workdir: str, name: str = 'h', own_grammar: bool = False) -> None:
+	def __init__(self, r: random.Random, shape: str, workdir: str, name: str = 'h', own_grammar: bool = False, symlinked: str | None = None) -> None:
 		self.r = r
 		self.hp = HistProject(shape)
 		self.root = os.path.join(workdir, name)
@@ -29,6 +29,16 @@ class History:
 		# per module key: sequence number of the last edit / touch, and of the last (successful) output write
 		self.last_change: dict[str, int] = {k: 0 for k in self.hp.names}
 		self.write_all()
+		# one module file may be a symbolic link into a directory outside the project's input globs (edits go to the link's target)
+		self.symlinked = symlinked
+		if symlinked:
+			name = self.hp.names[symlinked]
+			path = os.path.join(self.root, name.replace('.', os.sep) + '.py')
+			store = os.path.join(self.root, 'store')
+			os.makedirs(store, exist_ok=True)
+			target = os.path.join(store, os.path.basename(path))
+			os.replace(path, target)
+			os.symlink(target, path)
 		if self.own_grammar:
 			cli.write_grammar(self.root, 0, self.tick())
 		self.write_config()
@@ -134,4 +144,4 @@ class History:
 			shutil.rmtree(ref, ignore_errors=True)
 
 	def describe(self) -> dict:
-		return {'shape': self.hp.shape, 'own_grammar': self.own_grammar, 'grammar_variant': self.grammar_variant, 'variants': {k: dict(v) for k, v in self.hp.variants.items()}, 'log': self.log}
+		return {'shape': self.hp.shape, 'symlinked': self.symlinked, 'own_grammar': self.own_grammar, 'grammar_variant': self.grammar_variant, 'variants': {k: dict(v) for k, v in self.hp.variants.items()}, 'log': self.log}
